@@ -7,6 +7,7 @@ lists of bools, or raise ``Malformed``.
 import ast
 import csv
 import io
+import re
 
 
 class Malformed(Exception):
@@ -93,10 +94,10 @@ def read_cxt(text):
         lines.pop()
     if len(lines) < 5 or lines[0].strip() != 'B':
         raise Malformed('no Burmeister header')
-    try:
-        n, m = int(lines[2]), int(lines[3])
-    except ValueError:
+    # the two counts are plain decimal numbers (int() would also take '1_000', '+3', '٣')
+    if not all(re.fullmatch(r'[ \t]*[0-9]+[ \t]*', lines[k]) for k in (2, 3)):
         raise Malformed('counts')
+    n, m = int(lines[2]), int(lines[3])
     body = lines[5:] if lines[4].strip() == '' else lines[4:]
     if len(body) != n + m + n:
         raise Malformed(f'{len(body)} lines for {n}+{m}+{n}')
